@@ -13,7 +13,7 @@ from typing import (
     MutableMapping,
     Dict,
     cast,
-    Set,
+    FrozenSet,
 )
 
 import icontract._represent
@@ -651,9 +651,38 @@ def resolve_kwdefaults(sign: inspect.Signature) -> Dict[str, Any]:
 # contract checking is already in progress.
 #
 # The key refers to the id() of the function (preconditions and postconditions) or instance (invariants).
+#
+# The set is immutable and the variable is re-bound on every change. A mutable set would be shared, by reference,
+# with all the contexts copied from the current one (*e.g.*, with the asyncio tasks and the threads started by
+# ``asyncio.to_thread``), so that the concurrent callers would disable each other's checks.
 _IN_PROGRESS = contextvars.ContextVar(
     "_IN_PROGRESS", default=None
-)  # type: contextvars.ContextVar[Optional[Set[int]]]
+)  # type: contextvars.ContextVar[Optional[FrozenSet[int]]]
+
+
+def _is_in_progress(an_id: int) -> bool:
+    """Check whether the function or the instance is marked as in progress in the current context."""
+    in_progress = _IN_PROGRESS.get()
+    return in_progress is not None and an_id in in_progress
+
+
+def _mark_in_progress(an_id: int) -> Any:
+    """Mark the function or the instance as in progress in the current context and return the token to unmark it."""
+    in_progress = _IN_PROGRESS.get()
+    if in_progress is None:
+        return _IN_PROGRESS.set(frozenset((an_id,)))
+
+    return _IN_PROGRESS.set(in_progress | frozenset((an_id,)))
+
+
+def _unmark_in_progress(token: Any) -> None:
+    """Restore the marks as they were before the corresponding call to :func:`_mark_in_progress`."""
+    try:
+        _IN_PROGRESS.reset(token)
+    except ValueError:
+        # The token was created in a different context (*e.g.*, a suspended coroutine is closed by
+        # the garbage collector). There is nothing to be restored in the current context.
+        pass
 
 
 def decorate_with_checker(func: CallableT) -> CallableT:
@@ -721,24 +750,16 @@ def decorate_with_checker(func: CallableT) -> CallableT:
             if kwargs_error:
                 raise kwargs_error
 
-            # We need to create a new in-progress set if it is None as the ``ContextVar`` does not accept
-            # a factory function for the default argument. If we didn't do this, and simply set an empty
-            # set as the default, ``ContextVar`` would always point to the same set by copying the default
-            # by reference.
-            in_progress = _IN_PROGRESS.get()
-            if in_progress is None:
-                in_progress = set()
-                _IN_PROGRESS.set(in_progress)
 
             # If the wrapper is already checking the contracts for the wrapped function, avoid a recursive loop
             # by skipping any subsequent contract checks for the same function.
             #
             # This re-entrant call must not unmark the function as in progress: the mark belongs to the outer
             # call which is still checking the contracts.
-            if id_func in in_progress:
+            if _is_in_progress(id_func):
                 return await func(*args, **kwargs)
 
-            in_progress.add(id_func)
+            in_progress_token = _mark_in_progress(id_func)
 
             # Use try-finally instead of ExitStack for performance.
             try:
@@ -771,7 +792,7 @@ def decorate_with_checker(func: CallableT) -> CallableT:
                         snapshots=snapshots, resolved_kwargs=resolved_kwargs
                     )
             finally:
-                in_progress.discard(id_func)
+                _unmark_in_progress(in_progress_token)
 
             # The function is not marked as in progress while its body is executing so that the (mutually)
             # recursive calls made by the body are checked as well. Only the calls made while the contracts
@@ -783,7 +804,7 @@ def decorate_with_checker(func: CallableT) -> CallableT:
             result = await func(*args, **kwargs)
 
             if postconditions:
-                in_progress.add(id_func)
+                in_progress_token = _mark_in_progress(id_func)
                 try:
                     resolved_kwargs["result"] = result
 
@@ -793,7 +814,7 @@ def decorate_with_checker(func: CallableT) -> CallableT:
                     if violation_error:
                         raise violation_error
                 finally:
-                    in_progress.discard(id_func)
+                    _unmark_in_progress(in_progress_token)
 
             return result
 
@@ -805,24 +826,16 @@ def decorate_with_checker(func: CallableT) -> CallableT:
             if kwargs_error:
                 raise kwargs_error
 
-            # We need to create a new in-progress set if it is None as the ``ContextVar`` does not accept
-            # a factory function for the default argument. If we didn't do this, and simply set an empty
-            # set as the default, ``ContextVar`` would always point to the same set by copying the default
-            # by reference.
-            in_progress = _IN_PROGRESS.get()
-            if in_progress is None:
-                in_progress = set()
-                _IN_PROGRESS.set(in_progress)
 
             # If the wrapper is already checking the contracts for the wrapped function, avoid a recursive loop
             # by skipping any subsequent contract checks for the same function.
             #
             # This re-entrant call must not unmark the function as in progress: the mark belongs to the outer
             # call which is still checking the contracts.
-            if id_func in in_progress:
+            if _is_in_progress(id_func):
                 return func(*args, **kwargs)
 
-            in_progress.add(id_func)
+            in_progress_token = _mark_in_progress(id_func)
 
             # Use try-finally instead of ExitStack for performance.
             try:
@@ -857,7 +870,7 @@ def decorate_with_checker(func: CallableT) -> CallableT:
                         snapshots=snapshots, resolved_kwargs=resolved_kwargs, func=func
                     )
             finally:
-                in_progress.discard(id_func)
+                _unmark_in_progress(in_progress_token)
 
             # The function is not marked as in progress while its body is executing so that the (mutually)
             # recursive calls made by the body are checked as well. Only the calls made while the contracts
@@ -869,7 +882,7 @@ def decorate_with_checker(func: CallableT) -> CallableT:
             result = func(*args, **kwargs)
 
             if postconditions:
-                in_progress.add(id_func)
+                in_progress_token = _mark_in_progress(id_func)
                 try:
                     resolved_kwargs["result"] = result
 
@@ -881,7 +894,7 @@ def decorate_with_checker(func: CallableT) -> CallableT:
                     if violation_error:
                         raise violation_error
                 finally:
-                    in_progress.discard(id_func)
+                    _unmark_in_progress(in_progress_token)
 
             return result
 
@@ -1048,14 +1061,6 @@ def _decorate_with_invariants(func: CallableT, is_init: bool) -> CallableT:
 
             # We need to disable the invariants check during the constructor.
 
-            # We need to create a new in-progress set if it is None as the ``ContextVar`` does not accept
-            # a factory function for the default argument. If we didn't do this, and simply set an empty
-            # set as the default, ``ContextVar`` would always point to the same set by copying the default
-            # by reference.
-            in_progress = _IN_PROGRESS.get()
-            if in_progress is None:
-                in_progress = set()
-                _IN_PROGRESS.set(in_progress)
 
             id_instance = id(instance)
 
@@ -1063,10 +1068,10 @@ def _decorate_with_invariants(func: CallableT, is_init: bool) -> CallableT:
             # a derived class (``super().__init__(...)``) or from a method of the instance. The invariants
             # must neither be checked here, as the construction might not have been finished yet, nor must
             # the instance be unmarked, as the mark belongs to the outer call.
-            if id_instance in in_progress:
+            if _is_in_progress(id_instance):
                 return func(*args, **kwargs)
 
-            in_progress.add(id_instance)
+            in_progress_token = _mark_in_progress(id_instance)
 
             # ExitStack is not used here due to performance.
             try:
@@ -1077,7 +1082,7 @@ def _decorate_with_invariants(func: CallableT, is_init: bool) -> CallableT:
 
                 return result
             finally:
-                in_progress.discard(id_instance)
+                _unmark_in_progress(in_progress_token)
 
     else:
         # (mristin, 2021-02-16)
@@ -1113,23 +1118,15 @@ def _decorate_with_invariants(func: CallableT, is_init: bool) -> CallableT:
                     else instance.__class__.__invariants_on_call__
                 )
 
-                # We need to create a new in-progress set if it is None as the ``ContextVar`` does not accept
-                # a factory function for the default argument. If we didn't do this, and simply set an empty
-                # set as the default, ``ContextVar`` would always point to the same set by copying the default
-                # by reference.
-                in_progress = _IN_PROGRESS.get()
-                if in_progress is None:
-                    in_progress = set()
-                    _IN_PROGRESS.set(in_progress)
 
                 # The following dunder indicates whether another invariant is currently being checked. If so,
                 # we need to suspend any further invariant check to avoid endless recursion.
                 id_instance = id(instance)
-                if id_instance not in in_progress:
-                    in_progress.add(id_instance)
-                else:
+                if _is_in_progress(id_instance):
                     # Do not check any invariants to avoid endless recursion.
                     return await func(*args, **kwargs)
+
+                in_progress_token = _mark_in_progress(id_instance)
 
                 # ExitStack is not used here due to performance.
                 try:
@@ -1143,7 +1140,7 @@ def _decorate_with_invariants(func: CallableT, is_init: bool) -> CallableT:
 
                     return result
                 finally:
-                    in_progress.discard(id_instance)
+                    _unmark_in_progress(in_progress_token)
 
         else:
 
@@ -1170,21 +1167,13 @@ def _decorate_with_invariants(func: CallableT, is_init: bool) -> CallableT:
                 # The following dunder indicates whether another invariant is currently being checked. If so,
                 # we need to suspend any further invariant check to avoid endless recursion.
 
-                # We need to create a new in-progress set if it is None as the ``ContextVar`` does not accept
-                # a factory function for the default argument. If we didn't do this, and simply set an empty
-                # set as the default, ``ContextVar`` would always point to the same set by copying the default
-                # by reference.
-                in_progress = _IN_PROGRESS.get()
-                if in_progress is None:
-                    in_progress = set()
-                    _IN_PROGRESS.set(in_progress)
 
                 id_instance = id(instance)
-                if id_instance not in in_progress:
-                    in_progress.add(id_instance)
-                else:
+                if _is_in_progress(id_instance):
                     # Do not check any invariants to avoid endless recursion.
                     return func(*args, **kwargs)
+
+                in_progress_token = _mark_in_progress(id_instance)
 
                 # ExitStack is not used here due to performance.
                 try:
@@ -1198,7 +1187,7 @@ def _decorate_with_invariants(func: CallableT, is_init: bool) -> CallableT:
 
                     return result
                 finally:
-                    in_progress.discard(id_instance)
+                    _unmark_in_progress(in_progress_token)
 
     functools.update_wrapper(wrapper=wrapper, wrapped=func)
 
